@@ -349,7 +349,10 @@ func (h h2) Run(env *Env, cfg any) {
 		duringCancel := sh.cancelled && sh.cancelSeq >= t.EnterSeq && sh.cancelSeq <= t.ExitSeq
 		// (a job taken before the previous tick may begin its body after it, so starts observed in between
 		// cannot be subtracted soundly: the bound is the previous tick's size)
-		if d > prevN && !duringCancel {
+		// once triggering has been stopped the stop path records its drops whenever it gets to run (it may be
+		// held up), so drops seen in the window of a later tick are not that tick's
+		afterCancel := sh.cancelled && sh.cancelSeq <= t.ExitSeq
+		if d > prevN && !duringCancel && !afterCancel {
 			env.Violate("C02", "tick-dropped-more-than-pending", "pool/tick", "tick %d reported %d dropped, but the previous tick only requested %d", i, d, prevN)
 		}
 		if d > 0 {
@@ -357,10 +360,8 @@ func (h h2) Run(env *Env, cfg any) {
 		}
 		switch {
 		case t.CancelledAtEnter:
-			// issued after cancel() returned: contributes nothing
-			if d != 0 && !(sh.cancelSeq >= sh.ticks[max(i-1, 0)].EnterSeq) {
-				env.Violate("C02", "drop-after-stop", "pool/tick", "tick %d was issued after triggering stopped but reported %d dropped", i, d)
-			}
+			// issued after cancel() returned: contributes nothing (drops observed in its window belong to the
+			// stop path, see above)
 		case t.LimitAtEnter:
 			limitSeen = true
 		case duringCancel:
